@@ -32,12 +32,33 @@ type Eval struct {
 	Steps int
 	// Unspec is set when the run touched behaviour the language does not pin down.
 	Unspec bool
+	// Rec: when RecOn, the values of variable / call / member / subscript terms in the order their
+	// evaluation completes (what debug mode records).
+	RecOn bool
+	Rec   []RecEvent
+}
+
+// RecEvent is one completed evaluation of a recordable term.
+type RecEvent struct {
+	T *gen.Term
+	V *V
 }
 
 func NewEval(res Resolution, env map[string]*V) *Eval { return &Eval{Res: res, Env: env} }
 
 // Run evaluates t.
 func (ev *Eval) Run(t *gen.Term) (*V, *Fail) {
+	v, f := ev.run(t)
+	if ev.RecOn && f == nil {
+		switch t.Op {
+		case "var", "call", "sub", "mem":
+			ev.Rec = append(ev.Rec, RecEvent{t, v})
+		}
+	}
+	return v, f
+}
+
+func (ev *Eval) run(t *gen.Term) (*V, *Fail) {
 	ev.Steps++
 	switch t.Op {
 	case "num":
